@@ -539,7 +539,14 @@ func (e *erasureCodingPartStore) newPartReader(ctx context.Context, tx database.
 				_ = pw.CloseWithError(fmt.Errorf("insufficient shards in stripe %d", stripeIndex))
 				return
 			}
-			if err := enc.ReconstructData(shards); err != nil {
+			// Healing may have to rewrite parity shards as well; ReconstructData
+			// leaves missing parity shards nil, which would heal them as frames with
+			// an empty payload.
+			reconstruct := enc.ReconstructData
+			if healMissing && healingShardCount > 0 {
+				reconstruct = enc.Reconstruct
+			}
+			if err := reconstruct(shards); err != nil {
 				closeHealingWriters(err)
 				_ = pw.CloseWithError(err)
 				return
